@@ -393,10 +393,19 @@ def m_F41(case, backend, f):
     return any(e[1] in ("horizontal_max", "horizontal_min") for _, _, e in fns(case))
 
 
+def m_F45(case, backend, f):
+    """Polars (third party): after a join, horizontal max / min with a literal argument inside a window aggregate"""
+    if backend != "polars" or f.get("exc") != "InvalidOperationError" or "output length of `map`" not in (f.get("msg") or ""):
+        return False
+    has_join = any(st[0] == "join" for p in walk_pipes(case["pipe"]) for st in p["steps"])
+    return has_join and any(e[1] in ("horizontal_max", "horizontal_min") and any(isinstance(a, list) and a and a[0] in ("lit", "litc") for a in e[2])
+                            for _, _, e in fns(case))
+
+
 MATCHERS = {
     "F06": m_F06, "F07": m_F07, "F09": m_F09, "F13": m_F13, "F15": m_F15, "F16": m_F16, "F19": m_F19,
     "F20": m_F20, "F21": m_F21, "F23": m_F23, "F27": m_F27, "F28": m_F28, "F29": m_F29, "F30": m_F30,
-    "F31": m_F31, "F32": m_F32, "F33": m_F33, "F37": m_F37, "F38": m_F38, "F39": m_F39, "F40": m_F40, "F41": m_F41,
+    "F31": m_F31, "F32": m_F32, "F33": m_F33, "F37": m_F37, "F38": m_F38, "F39": m_F39, "F40": m_F40, "F41": m_F41, "F45": m_F45,
 }
 
 
@@ -472,4 +481,8 @@ PROBES = {
     "F31": P([["join", {"id": "Q", "src": "t", "steps": [["alias", False]]},
                [["fn", "equal", [col("id"), ["col", "Q@1", "id"]]], ["fn", "equal", [col("id"), ["col", "Q@1", "id"]]]],
                "inner", None]]),
+    "F45": {**P([["join", {"id": "Q", "src": "t", "steps": [["alias", False]]},
+                  [["fn", "equal", [col("g"), ["col", "Q@1", "g"]]]], "left", None],
+                 ["mutate", [["z1", ["fn", "mean", [["fn", "horizontal_min", [col("a"), ["lit", 1], ["lit", -1]]]],
+                                     {"partition_by": [col("s")]}]]]]]), "only": ["polars"]},
 }
